@@ -408,18 +408,18 @@ Definition fresh_solver (p : prov) : bool :=
   is_cfg "configGrid" "momentumGridSize" (arg "#1" grid) &&
   leaves_ok p.
 
-(* attributes that must not be overwritten on the freshly built objects *)
-Definition protected_attrs : list string :=
-  ["errTol"; "maxIterations"; "pressRelErrTol"; "thermo"; "hydrodynamics"; "grid";
-   "boltzmannSolver"; "forceEnergyConservation"; "wallThicknessBounds"; "wallOffsetBounds";
-   "eom"; "<item>"]%string.
+(* the only attribute that may be set on the freshly built objects after construction *)
+Definition settable_attrs : list string := ["includeOffEq"]%string.
 
 Theorem fresh_solver_per_call :
   gen_setupWallSolver_returns <> [] /\
   forallb fresh_solver gen_setupWallSolver_returns = true /\
   gen_setupWallSolver_stores_on_self = [] /\
-  forallb (fun sv => negb (mem (fst sv) protected_attrs) && leaves_ok (snd sv))
+  forallb (fun sv => mem (fst sv) settable_attrs && leaves_ok (snd sv))
           gen_setupWallSolver_local_stores = true /\
+  (* solveWall / solveWallDetonation / wallSpeedLTE store nothing at all: no attribute or item
+     store (through self or any alias), no mutating container call *)
+  gen_manager_entry_stores = [] /\
   gen_solveWall_uses_fresh_setup = true /\ gen_solveWallDetonation_uses_fresh_setup = true.
 Proof. split; [discriminate|]. repeat split; vm_compute; reflexivity. Qed.
 Print Assumptions fresh_solver_per_call.
@@ -457,6 +457,29 @@ Theorem solveWall_no_side_channel :
   List.length gen_message_kinds = 9%nat.
 Proof. repeat split; vm_compute; reflexivity. Qed.
 Print Assumptions solveWall_no_side_channel.
+
+(** the saturation guard of solveWall compares the returned wall parameters with the SAME
+    expressions (canonical text, locals inlined) that bound the minimiser of
+    _intermediatePressureResults, and the minimiser is handed those bounds: a saturated
+    parameter is exactly equal to the tested value *)
+Theorem saturation_guard_is_minimiser_bound :
+  gen_guard_bound_exprs = gen_minimiser_bound_exprs /\
+  List.length gen_guard_bound_exprs = 4%nat /\
+  List.length (nodup string_dec gen_guard_bound_exprs) = 4%nat /\
+  gen_minimiser_gets_these_bounds = true.
+Proof. repeat split; vm_compute; reflexivity. Qed.
+Print Assumptions saturation_guard_is_minimiser_bound.
+
+(** findWallVelocityDeflagrationHybrid is the model's [findDeflag]: one return,
+    solveWall(self.hydrodynamics.vMin, min(vJ, fastestDeflag()), uniform guess), default
+    thickness 5/Tnucl, no store on any object, no call besides those *)
+Theorem deflag_search_structure :
+  gen_deflag_lower = "self.hydrodynamics.vMin"%string /\
+  gen_deflag_upper_is_min_vJ_fastestDeflag = true /\ gen_deflag_guess_is_uniform = true /\
+  gen_deflag_default_thickness_is_5_over_Tnucl = true /\
+  gen_deflag_stores = [] /\ gen_deflag_other_calls = [].
+Proof. repeat split; vm_compute; reflexivity. Qed.
+Print Assumptions deflag_search_structure.
 
 (** ** 9. the flag successWallPressure (oracle output [eo_pressOk] of the model) is lowered on
        every way out of wallPressure's iteration except the convergence test: the loop is
@@ -537,6 +560,23 @@ Example success_reachable :
               r_success (o_res o) = true /\ r_velocity (o_res o) = Some v /\
               r_type (o_res o) = Deflagration /\ Qabs (v - (2 # 5)) < 1 # 10.
 Proof. do 2 eexists. split; [vm_compute; reflexivity|]. vm_compute. repeat split. Qed.
+
+(** ... with both end tuples supplied above vJ (the detonation search's call) *)
+Definition demo_seg := mkSeg 0 (-(4 # 5)) 1 true true true true 100 90 [1] [0].
+Example detonation_call_reachable :
+  exists o v,
+    c_vJ base1 < (3 # 4) /\ (3 # 4) < (9 # 10) /\
+    eo_pressure (Pcurve gen_atol0 demo_seg [] gen_atol0 (3 # 4) (mkGuess [] [])) <= 0 /\
+    solveWall (Pcurve gen_atol0 demo_seg []) bisect_rf (cfg base1) (mkState 0 false false)
+              (3 # 4) (9 # 10) (mkGuess [1] [0])
+              (Some (Pcurve gen_atol0 demo_seg [] gen_atol0 (3 # 4) (mkGuess [] [])))
+              (Some (Pcurve gen_atol0 demo_seg [] gen_atol0 (9 # 10) (mkGuess [] []))) 0 = RDone o /\
+    r_success (o_res o) = true /\ r_velocity (o_res o) = Some v /\
+    r_type (o_res o) = Detonation /\ (3 # 4) <= v /\ v <= (9 # 10).
+Proof.
+  do 2 eexists. split; [reflexivity|]. split; [reflexivity|]. split; [vm_compute; discriminate|].
+  split; [vm_compute; reflexivity|]. vm_compute. repeat split; discriminate.
+Qed.
 
 (** ... and through the deflagration search, whose window hypotheses are satisfiable *)
 Example success_reachable_findDeflag :
